@@ -573,7 +573,11 @@ func parseContractFile(path, pkg, text string) ([]*Contract, error) {
 							body = replaceWord(body, pn, args[j])
 						}
 					}
-					t = t[:start] + body + t[end+2:]
+					if len(splitTop(body)) > 1 {
+						t = t[:start] + body + t[end+2:] // an argument list
+					} else {
+						t = t[:start] + "(" + body + ")" + t[end+2:]
+					}
 				}
 			}
 		}
